@@ -60,7 +60,7 @@ Section EnumFacts.
             map_ok (VVariant (vi_ident vi))
                    (parse_fields sugg sim interp_with interp_fn fs cs (vi_auk vi) (state0 fs) items
                                  (fun _ => Ok None) (fun e => at_ (vi_name vi) (with_span (i_span (ninfo it)) e)))
-        | NBadList _ _ _ es msg => Err (from_syn es msg)
+        | NBadList _ _ _ es msg => Err (at_ (vi_name vi) (from_syn es msg))
         | _ => Err (with_span (i_span (ninfo it)) (unsupported_format "non-list"))
         end
     end.
